@@ -77,7 +77,9 @@ RULE = ("a case is an infrastructure (2-9 stations on three line pairs, delta-wy
         "all; plus keys of sessions that are not active, of no session, and STATION ids; greedy and round robin, "
         "continuous and finite-rate EVSEs, uninterrupted on/off, 1-3 direct calls or whole simulations; in 40 % the "
         "limits are multiplied by 3-10 and in half of the sessions the remaining demand is far above the EVSE maximum "
-        "(headroom and demand above the maximum at once); the dict the estimator returned is an INPUT of the model "
+        "(headroom and demand above the maximum at once); the thorough tier adds an EXHAUSTIVE small scope (2 stations x "
+        "kind combinations x loose/binding limit x every PAIR of answers from {no key, -2, 0, 3, 8, 10.5, 16, 17, 40, inf} "
+        "x both algorithms x uninterrupted, 3200 calls); the dict the estimator returned is an INPUT of the model "
         "call (Sorted.scheduleCallEst), what it was handed is compared with the model's estInput, and whole simulations "
         "run the table estimator inside the model's loop (SimSortedEst.sortedSchedEst); "
         "constraint-free networks (4 %) and DeadbandEVSE stations (outside the quantifier: modelled, not judged); "
@@ -597,6 +599,35 @@ def _gen_custom_sim(rng):
     return case
 
 
+def enumerate_small_est():
+    """Exhaustive small scope for ARBITRARY estimators (thorough tier): two stations of every kind combination
+    (continuous [0,16] / finite {0,8,16}), a pod row that is loose (100 A) or binds (20 A), EVERY pair of answers from
+    a grid that holds each class (no key, negative, zero, below the minimum pilot, between levels, a level, the EVSE
+    maximum, above it, inf), both algorithms, uninterrupted on/off; remaining demand far above the EVSE maximum."""
+    import itertools
+    kinds = [{"t": "cont", "min": 0, "max": 16}, {"t": "finite", "rates": [0, 8, 16]}]
+    grid = [None, -2, 0, 3, 8, 10.5, 16, 17, 40, "inf"]
+    out = []
+    t, period, volt = 4, 5, 208
+    for ks in itertools.product(range(2), repeat=2):
+        stations = [{"id": f"st-{j}", "line": ["AB", "CA"][j], "evse": kinds[ks[j]], "volt": volt,
+                     "phase": LINE_PHASE[["AB", "CA"][j]]} for j in range(2)]
+        for lim in (100.0, 20.0):
+            cons = [{"name": "c0", "coef": {"st-0": 1.0, "st-1": 1.0}, "limit": lim}]
+            evs = [{"session": f"sess-{j}", "station": f"st-{j}", "arrival": j, "departure": t + 5, "est": t + 5 - j,
+                    "requested": 30.0, "delivered": 1.0, "prev_pilot": 0, "rate": 0, "max_override": None}
+                   for j in range(2)]
+            for b0, b1 in itertools.product(grid, repeat=2):
+                table = {"sess-0": [b0], "sess-1": [b1], "st-1": [0], "ghost": [1]}
+                for algo, un in itertools.product(("greedy", "rr"), (False, True)):
+                    out.append({"mode": "direct", "period": period, "stations": stations, "constraints": cons,
+                                "calls": [{"time": t, "evs": evs, "order": [1, 0]}],
+                                "ramp": {"up": 1, "down": 1, "inc": 1}, "algo": algo, "sort": "fcfs",
+                                "uninterrupted": un, "estimate": True, "inc": 1, "enumerated": True,
+                                "est_spec": {"table": table}})
+    return out
+
+
 def _gen_custom(rng, n):
     out = []
     for i in range(n):
@@ -612,6 +643,7 @@ def generate(rng, n, tier):
     out = []
     if tier == "thorough":
         out.extend(enumerate_small())
+        out.extend(enumerate_small_est())
     for i in range(n):
         r = i % 10
         if r == 9:
